@@ -577,7 +577,9 @@ def run(ctx: core.Ctx) -> core.Report:
     for i in range(0, len(small), per):
         jobs.append(("tcp", small[i : i + per], 2, ("eof",), ("eager", "late")))
     # bytes that mean something to str.format / % / regex machinery an error message might be built with
-    special = [b'1;{"t":2}', b"{\xff}\n", b"{0}\n{", b"%s\n%(x)s", b"a{b\nc}d\n", b"}\n", b"\\\n(", b"%\n"]
+    special = [b'1;{"t":2}', b"{\xff}\n", b"{0}\n{", b"%s\n%(x)s", b"a{b\nc}d\n", b"}\n", b"\\\n(", b"%\n",
+               # byte order marks: U+FEFF is an ordinary character of a line, wherever it stands
+               b"\xef\xbb\xbfa\n", b"a\n\xef\xbb\xbfb\n", b"\xef\xbb\xbf\n", b"\xff\xfea\n"]
     jobs.append(("tcp", special, 64, ("eof", "error"), ("eager", "late")))
     jobs.append(("serial", special, 64, ("eof",), ("eager",)))
     jobs.append(("tcp", special, 2, ("eof",), ("eager",)))
